@@ -626,3 +626,147 @@ Lemma frame_run st f rest :
   wf_frame f = true ->
   bparse_all st (enc_frame f ++ rest) = bparse_all (fold_left b_part (frame_parts f) st) rest.
 Proof. intros W. unfold enc_frame. apply parts_run. apply wf_frame_parts. exact W. Qed.
+
+(* ---------- responses ---------- *)
+
+Definition enc_list_frames (fs : list aframe) : bytes := flat_map (fun f => enc_frame f ++ enc_list_ok) fs.
+
+(* one frame of a command list, closed by list_OK *)
+Lemma list_frame_run st f rest :
+  wf_frame f = true -> cur_of st = empty_frame ->
+  bparse_all st (enc_frame f ++ enc_list_ok ++ rest) =
+  bparse_all (ListInProgress empty_frame (done_of st ++ [dec_frame f])) rest.
+Proof.
+  intros W C. rewrite (frame_run st f _ W), step_list_ok, b_finish_frame_view.
+  destruct (fold_b_part_view (frame_parts f) st) as (V1 & V2 & _).
+  rewrite V1, V2, C, frame_fold_empty. reflexivity.
+Qed.
+
+Definition after_list (st : bstate) (fs : list aframe) : bstate :=
+  match fs with
+  | [] => st
+  | _ => ListInProgress empty_frame (done_of st ++ map dec_frame fs)
+  end.
+
+Lemma list_frames_run : forall fs st rest,
+  forallb wf_frame fs = true -> cur_of st = empty_frame ->
+  bparse_all st (enc_list_frames fs ++ rest) = bparse_all (after_list st fs) rest.
+Proof.
+  induction fs as [|f fs IH]; intros st rest W C; [reflexivity|].
+  cbn [forallb] in W. apply andb_true_iff in W as [W1 W2].
+  unfold enc_list_frames. cbn [flat_map]. fold (enc_list_frames fs). rewrite <- !app_assoc.
+  rewrite (list_frame_run st f _ W1 C).
+  rewrite (IH (ListInProgress empty_frame (done_of st ++ [dec_frame f])) rest W2 eq_refl).
+  unfold after_list. destruct fs as [|g fs]; [reflexivity|].
+  cbn [done_of map]. rewrite <- app_assoc. reflexivity.
+Qed.
+
+Lemma after_list_view st fs :
+  cur_of st = empty_frame ->
+  cur_of (after_list st fs) = empty_frame /\
+  done_of (after_list st fs) = done_of st ++ map dec_frame fs /\
+  (fs <> [] -> is_list (after_list st fs) = true).
+Proof.
+  intros C. destruct fs as [|f fs]; cbn [after_list map].
+  - rewrite app_nil_r. repeat split; [exact C | congruence].
+  - repeat split; reflexivity.
+Qed.
+
+(* the end of a response: OK, or a partial frame (dropped) and ACK *)
+Lemma end_run st r rest :
+  wf_end r = true ->
+  bparse_all st (enc_end r ++ rest) =
+  (Initial, rest, Complete (match a_error r with
+                            | None => b_finish st
+                            | Some e => mkResp (done_of st) (Some e)
+                            end)).
+Proof.
+  unfold wf_end, enc_end. intros W. destruct (a_error r) as [e|]; [|apply step_ok].
+  apply andb_true_iff in W as [WE WP]. rewrite <- app_assoc.
+  destruct (a_partial r) as [f|]; cbn [enc_partial].
+  - rewrite (frame_run st f _ WP), (step_error _ e rest WE), b_error_view.
+    destruct (fold_b_part_view (frame_parts f) st) as (_ & V2 & _). rewrite V2. reflexivity.
+  - cbn [app]. rewrite (step_error _ e rest WE), b_error_view. reflexivity.
+Qed.
+
+Lemma wf_resp_parts r : wf_resp r = true ->
+  wf_shape r = true /\ forallb wf_frame (a_frames r) = true /\ wf_end r = true.
+Proof.
+  unfold wf_resp. intros H. apply andb_true_iff in H as [H H3]. apply andb_true_iff in H as [H1 H2]. auto.
+Qed.
+
+(* C03, one response: the encoding of a well-formed abstract response, followed by ANY bytes, is
+   decoded into exactly that response; the builder is back in its initial state and the bytes that
+   follow are all still there. *)
+Theorem roundtrip_one r rest :
+  wf_resp r = true ->
+  bparse_all Initial (enc r ++ rest) = (Initial, rest, Complete (decoded r)).
+Proof.
+  intros W. destruct (wf_resp_parts r W) as (S & F & E).
+  unfold enc, decoded, wf_shape in *. destruct (a_form r).
+  - (* single form *)
+    destruct (a_error r) as [e|] eqn:AE.
+    + destruct (a_frames r) as [|f fs]; [|discriminate S].
+      pose proof (end_run Initial r rest E) as R. rewrite AE in R. exact R.
+    + destruct (a_frames r) as [|f [|g fs]]; try discriminate S.
+      cbn [forallb] in F. apply andb_true_iff in F as [F1 _].
+      cbn [hd_error enc_partial map]. rewrite <- app_assoc.
+      rewrite (frame_run Initial f _ F1), step_ok, b_finish_view.
+      destruct (fold_b_part_view (frame_parts f) Initial) as (V1 & _ & V3).
+      rewrite V1, V3. cbn [is_list cur_of]. rewrite frame_fold_empty. reflexivity.
+  - (* list form *)
+    fold (enc_list_frames (a_frames r)). rewrite <- app_assoc.
+    rewrite (list_frames_run (a_frames r) Initial _ F eq_refl).
+    rewrite (end_run _ r rest E).
+    destruct (after_list_view Initial (a_frames r) eq_refl) as (_ & V2 & V3).
+    destruct (a_error r) as [e|].
+    + rewrite V2. reflexivity.
+    + rewrite b_finish_view, V2, V3; [reflexivity|].
+      destruct (a_frames r); [discriminate S | discriminate].
+Qed.
+
+(* the empty command list is the one ambiguity of the wire format (hence [wf_shape]): its reply is
+   the bytes of the single form of an empty frame, and is decoded as ONE empty frame *)
+Lemma empty_list_reply_is_one_empty_frame rest :
+  enc (mkAResp FList [] None None) = enc (mkAResp FSingle [mkAFrame [] None 0] None None) /\
+  bparse_all Initial (enc (mkAResp FList [] None None) ++ rest) = (Initial, rest, Complete (mkResp [empty_frame] None)).
+Proof. split; [reflexivity|]. exact (step_ok Initial rest). Qed.
+
+(* ---------- streams of responses through the reference run ---------- *)
+
+Lemma ref_receive_one r rest t :
+  wf_resp r = true -> ref_receive (enc r ++ rest) t = (Resp (decoded r), rest).
+Proof. intros W. unfold ref_receive. rewrite (roundtrip_one r rest W). reflexivity. Qed.
+
+(* C03, streams: responses written back to back are received one per call, in order, exactly as
+   encoded; after them the run continues on exactly the bytes that follow (no hypothesis on them) *)
+Theorem roundtrip_stream : forall rs rest t fuel,
+  Forall (fun r => wf_resp r = true) rs ->
+  ref_run (length rs + fuel) (flat_map enc rs ++ rest) t =
+  map (fun r => Resp (decoded r)) rs ++ ref_run fuel rest t.
+Proof.
+  induction rs as [|r rs IH]; intros rest t fuel W; [reflexivity|].
+  inversion W as [|r' rs' W1 W2]; subst.
+  cbn [length flat_map Nat.add ref_run map app]. rewrite <- app_assoc.
+  rewrite (ref_receive_one r _ t W1). rewrite (IH rest t fuel W2). reflexivity.
+Qed.
+
+Corollary roundtrip_stream_firstn rs rest t fuel :
+  Forall (fun r => wf_resp r = true) rs -> (length rs <= fuel)%nat ->
+  firstn (length rs) (ref_run fuel (flat_map enc rs ++ rest) t) = map (fun r => Resp (decoded r)) rs.
+Proof.
+  intros W L. replace fuel with (length rs + (fuel - length rs))%nat by lia.
+  rewrite (roundtrip_stream rs rest t _ W).
+  rewrite <- (map_length (fun r => Resp (decoded r)) rs) at 1. apply firstn_app_exact.
+Qed.
+
+(* with C02 (run_ref): the same under EVERY segmentation of the stream into reads and for both
+   connection flavours (any buffer policy that always offers room) *)
+Corollary roundtrip_connection rs rest fuel c rd :
+  wf_reader rd -> pol_ok (c_policy c) (length (c_buf c)) -> c_state c = Initial ->
+  stream (c_buf c) rd = flat_map enc rs ++ rest ->
+  Forall (fun r => wf_resp r = true) rs ->
+  run (length rs + fuel) 0 c rd = map (fun r => Resp (decoded r)) rs ++ ref_run fuel rest (rtail rd).
+Proof.
+  intros WR P I S W. rewrite (run_ref _ c rd WR P I), S. apply roundtrip_stream. exact W.
+Qed.
